@@ -49,7 +49,7 @@ EXHAUSTIVE = {"quick": True, "thorough": True}
 
 FUNCS = ["true_positive_rate", "false_negative_rate", "false_positive_rate", "true_negative_rate",
          "selection_rate", "mean_prediction", "count"]
-ENCODINGS = {"01": [0, 1], "m11": [-1, 1], "25": [2, 5], "ab": ["a", "b"]}
+ENCODINGS = {"01": [0, 1], "m11": [-1, 1], "25": [2, 5], "ab": ["a", "b"], "bool": [False, True]}
 MAXN = {"quick": 3, "thorough": 5}
 PART = 256          # (y_true, y_pred) pairs per case
 
@@ -164,7 +164,30 @@ def impl(case):
         as_array = (k + j) % 2 == 1
         yt = np.array(t) if as_array and len(t) else list(t)
         yp = np.array(p) if as_array and len(p) else list(p)
-        sw = None if w is None else (np.array(w, dtype=float) if (k % 3 == 0) else list(w))
+        # weights in every accepted container: list, 1-D array, (n,1) column array, pandas Series with
+        # non-default index labels, one-column DataFrame
+        if w is None:
+            sw = None
+        else:
+            kind = (k + 2 * j) % 5
+            if fn <= 3 and kind in (2, 4):
+                # the four rates hand the weights to sklearn's confusion_matrix as they are, and sklearn rejects
+                # 2-D weights (a rejection, not a wrong value; the property does not quantify over weight
+                # shapes): column-shaped weights are generated for selection_rate / mean_prediction only,
+                # which squeeze them explicitly
+                kind = 3 if kind == 2 else 0
+            if kind == 0:
+                sw = np.array(w, dtype=float)
+            elif kind == 1:
+                sw = list(w)
+            elif kind == 2:
+                sw = np.array(w, dtype=float).reshape(-1, 1)
+            elif kind == 3:
+                import pandas as pd
+                sw = pd.Series([float(x) for x in w], index=[f"r{len(w) - i}" for i in range(len(w))])
+            else:
+                import pandas as pd
+                sw = pd.DataFrame({"w": [float(x) for x in w]}, index=range(100, 100 + len(w)))
         try:
             if fn <= 3:
                 r = f(yt, yp, sample_weight=sw, pos_label=pos)
